@@ -159,6 +159,16 @@ class Runner:
         # for the oracle: the receiver was constructed with immutable=False (whether or not the option reached it)
         mutable_recv = bool(m["copies"] and (recv in self.requested_mutable or not getattr(ro, "immutable", True)))
         before = self.snapshot(inline)
+        # circumstances of the one documented alias write into a Table: "the FROM table joined again un-aliased".  The row
+        # sources of the statement the call works on, identified by name + schema + temporal clause (not by pypika's ==)
+        from pypika.queries import QueryBuilder as _QB, Joiner as _J
+        rq = ro if isinstance(ro, _QB) else (ro.query if isinstance(ro, _J) else None)
+        base_keys = set()
+        if isinstance(rq, _QB):
+            for t_ in list(getattr(rq, "_from", [])) + [getattr(rq, "_update_table", None)]:
+                k_ = table_key(t_)
+                if k_ is not None:
+                    base_keys.add(k_)
         exc, res = None, None
         try:
             res = bound(*args, **kwargs)
@@ -308,7 +318,15 @@ class Runner:
                 role = "argument"
                 cls = type(inline[int(key[3:])]).__name__
             if a0 != a1:
-                changes.append({"obj": key, "cls": cls, "role": role, "what": "alias", "before": repr(a0), "after": repr(a1)})
+                o_ = U.objs[key] if isinstance(key, int) else inline[int(key[3:])]
+                if a0 is not None and a0[1] is not None:
+                    akind = "alias-overwritten"         # the object already had a name
+                elif table_key(o_) is not None and table_key(o_) not in base_keys:
+                    akind = "alias-other-table"         # a Table that is not a row source of the statement worked on
+                else:
+                    akind = "alias"
+                changes.append({"obj": key, "cls": cls, "role": role, "what": "alias", "akind": akind,
+                                "before": repr(a0), "after": repr(a1)})
             elif r0 != r1:
                 changes.append({"obj": key, "cls": cls, "role": role, "what": "sql", "before": r0, "after": r1})
         same_obj = (res is ro) if exc is None else None
@@ -317,6 +335,22 @@ class Runner:
                 "args": [[p, i] for p, i in arg_idx], "chs": chs, "wrap": wrap, "delta": delta, "changes": changes,
                 "ret_cls": (qual(res) if exc is None and res is not None else None),
                 "res_render": (render(res) if exc is None else "!" + exc)}
+
+
+def table_key(t):
+    """identity of a table as a row source: name, schema chain, temporal clause (None for anything that is not a Table)"""
+    from pypika.queries import Table
+    if not isinstance(t, Table):
+        return None
+
+    def txt(x):
+        if x is None:
+            return None
+        try:
+            return x.get_sql(quote_char='"')
+        except Exception:  # noqa
+            return repr(x)
+    return (t._table_name, txt(getattr(t, "_schema", None)), txt(getattr(t, "_for", None)), txt(getattr(t, "_for_portion", None)))
 
 
 def reaches_mutable(o, depth=5, seen=None):
